@@ -7,9 +7,9 @@ import warnings
 
 from rac import C12 as B
 
-KNOWN = {B.K_LIST_TAIL, B.K_ZERO_ROW, B.K_FNNA_ARR, B.K_FRAME_TAIL}
+KNOWN = set()          # none of the bounded module's input-class keys is a listed finding any more (all fixed): every key counts
 N = 'nan'
-VEC = [[N, 1.0, N, N, N, 2.0, N, 3.0, N, N], [N, N, 1.0, N, 2.0, N, N, N, N, N], [1.0, N, N, N, 2.0, N, N, N, N, 3.0], [N] * 6, [1.0, 2.0, 3.0]]
+VEC = [[N, 1.0, N, N, N, 2.0, N, 3.0, N, N], [N, N, 1.0, N, 2.0, N, N, N, N, N], [1.0, N, N, N, 2.0, N, N, N, N, 3.0], [N] * 6, [1.0, 2.0, 3.0], [1.0, 2.0, N, N]]
 FRAMES = [[[1.0, N, 2.0, N, N, N, N], [N, 3.0, N, N, 4.0, N, N]], [[N, N, 1.0, N], [N, N, N, 2.0]], [[N, 1.0, N], [N, N, N]]]
 
 
